@@ -58,6 +58,9 @@ def _run_case(args):
     from harness.fan import make, quiet
     spec, start, words, nitems, dcount, cpu_limit = args[:6]
     prefix_forest = args[6] if len(args) > 6 else True
+    # the number of derivations is known (TLC enumeration, pinned witnesses): a forest that keeps yielding is endless.  For the
+    # combinatorial family nothing bounds the (finite, possibly huge) forests: only the admission / CPU budget decides there
+    count_cut = args[7] if len(args) > 7 else True
     quiet()
     counter = [0, 0, 0.0]
     orig_add = Column.add
@@ -103,6 +106,10 @@ def _run_case(args):
                         k += 1
                         if name in ("first", "prefix-first"):
                             break
+                        if not count_cut:
+                            if k >= 20000:
+                                break       # enough: the request is cut short without a verdict about the rest
+                            continue
                         if k >= (200 if name == "forest" else 5000):
                             # complete mode: at most 50 derivations exist (TLC enumeration) or the case is a pinned
                             # witness - a forest request that keeps yielding never returns.  Prefix mode also yields
@@ -235,7 +242,8 @@ def run(tier, seed):
     rnd.shuffle(fam)
     fam = fam[:48] if tier == "quick" else fam
     for (spec, cyclic), words in zip(fam, pmap(_family_words, [(s_[0], seed + i) for i, s_ in enumerate(fam)])):
-        jobs.append((spec, "<start>", words, 80, {}, 20.0, not cyclic))
+        # cyclic members: first tree and first prefix tree only (their forests are endless: finding F16)
+        jobs.append((spec, "<start>", words, 80, {w: 999 for w in words} if cyclic else {}, 20.0, not cyclic, False))
     total = 0
     maxadm = 0
     for job, res in zip(jobs, pmap(_run_case, jobs)):
